@@ -113,7 +113,7 @@ def floatTok (text : String) (finite : Bool) : DTok := if finite then .num text 
 /-- lexemes of `f"{op}{value}"` -/
 def unaryToks (o : UOp) (text : String) (finite : Bool) : List DTok :=
   match o with
-  | .not => if finite && text.toList.all Char.isDigit then [.name ("not" ++ text)] else [.raw ("not" ++ text)]
+  | .not => if text.toList.all Char.isAlphanum then [.name ("not" ++ text)] else [.raw ("not" ++ text)]
   | o => [.op o, floatTok text finite]
 
 mutual
